@@ -59,7 +59,9 @@ def gen(rng, tier):
         # connect handlers declared (sid, environ, auth) or (sid, environ)
         # instead of *args: the server tries without auth first when the
         # client sent none
-        'connect_arity': rng.choice([None, None, 3, 3, 2]),
+        # ('mixed': the namespaces' handlers differ - (sid, environ, auth)
+        # for one, (sid, environ) for the next)
+        'connect_arity': rng.choice([None, None, 3, 3, 2, 'mixed', 'mixed']),
         # msgpack serializer: namespace names are arbitrary strings there
         'msgpack': rng.random() < 0.25,
         # the disconnect handler tells the namespace that the client left
@@ -202,13 +204,21 @@ def _run(case, cfg, w):
     if cfg['disc_handler']:
         events.append('disconnect')
     legacy = bool(cfg.get('legacy_disc'))
-    carity = cfg.get('connect_arity')
+    def carity_of(key):
+        """Declared arity of the connect handler registered under `key`
+        (a served namespace or '*')."""
+        ca = cfg.get('connect_arity')
+        if ca != 'mixed':
+            return ca
+        keys = list(cfg['served']) + ['*']
+        return 3 if keys.index(key) % 2 == 0 else 2
 
     def fn_handler(ns, evn):
         h = w.make_handler(('s', 'func', ns, evn), plan, coroutine)
         if legacy and evn == 'disconnect':
             # (sid) - or (namespace, sid) for the catch-all namespace
             h = legacy_arity(h, 2 if ns == '*' else 1, coroutine)
+        carity = carity_of(ns)
         if carity and evn == 'connect':
             h = legacy_arity(h, carity + (1 if ns == '*' else 0), coroutine)
         return h
@@ -221,6 +231,7 @@ def _run(case, cfg, w):
         if legacy:
             legacy_namespace(o, 'disconnect', 2 if ns == '*' else 1,
                              coroutine)
+        carity = carity_of(ns)
         if carity:
             legacy_namespace(o, 'connect', carity + (1 if ns == '*' else 0),
                              coroutine)
@@ -375,7 +386,18 @@ def _run(case, cfg, w):
             cid = peer.conn.cid
             behaviours[(cid, ns)] = beh
             auth = auth_value(authk)
-            if carity == 2 and auth:
+            # which connect handler takes this namespace (functions before
+            # class-based namespaces, the namespace's own before the
+            # catch-all's)
+            if cfg['style'] == 'func' and ns in cfg['served']:
+                hkey = ns
+            elif cfg.get('catchall') == 'func':
+                hkey = '*'
+            elif ns in cfg['served']:
+                hkey = ns
+            else:
+                hkey = '*'
+            if carity_of(hkey) == 2 and auth:
                 auth = None   # a (sid, environ) handler cannot take auth:
                 #               such clients are outside what it supports
             n_before = len(w.rec.events)
